@@ -6,21 +6,33 @@ set_option maxHeartbeats 4000000
 
 /-- a step of the receiver that leaves the senders and the wait set alone -/
 theorem inv_receiver_local (s s' : St) (h : Inv s) (hn : s'.n = s.n) (hcap : s'.cap = s.cap)
-    (hspc : s'.spc = s.spc) (hins : s'.inset = s.inset)
+    (hspc : s'.spc = s.spc) (hins : s'.inset = s.inset) (hcpc : s'.cpc = s.cpc) (hclosed : s'.closed = s.closed)
     (hocc : s'.occ ≤ s'.cap) (hmsgs : s'.msgs + rborrow s' ≤ s'.occ)
     (hs : s.occ + rtoken s ≤ s'.occ + rtoken s')
     (hr : RSleeping s' → (RSleeping s ∧ s'.msgs ≤ s.msgs) ∨ s'.msgs = 0) : Inv s' := by
   have hH : holders s' = holders s := holders_same s s' hn (fun j _ => by rw [hspc, hins]; exact ⟨rfl, rfl⟩)
   have hP : pushers s' = pushers s := pushers_same s s' hn (fun j _ => by rw [hspc])
-  refine ⟨hocc, hmsgs, ?_, ?_, ?_⟩
+  refine ⟨hocc, hmsgs, ?_, ?_, ?_, by rw [hcpc, hclosed]; exact h.cpcClosed, ?_⟩
+  rotate_right
+  · intro hcl hcp j hsl
+    rw [hclosed] at hcl; rw [hcpc] at hcp
+    obtain ⟨hj, hp, hb⟩ := hsl
+    exact h.noSleepAfterClose hcl hcp j ⟨by rw [← hn]; exact hj, by rw [← hspc]; exact hp, by rw [← hins]; exact hb⟩
   · intro j hj hp; rw [hn] at hj; rw [hspc] at hp; rw [hins]; exact h.notInset j hj hp
   · rintro ⟨j, hj, hp, hb⟩
     have := h.senders ⟨j, by rw [← hn]; exact hj, by rw [← hspc]; exact hp, by rw [← hins]; exact hb⟩
-    rw [hcap, hH]; omega
+    have hct : ctoken s' = ctoken s := by unfold ctoken; rw [hcpc, hcap]
+    rw [hcap, hH, hct]; omega
   · intro hsl
     rcases hr hsl with ⟨hsl0, hle⟩ | h0
     · have := h.receiver hsl0; omega
     · omega
+
+theorem noSleep_mono (s s' : St) (h : Inv s) (hclosed : s'.closed = s.closed) (hcpc : s'.cpc = s.cpc)
+    (hsub : ∀ j, Sleeping s' j → Sleeping s j) : s'.closed = true → s'.cpc = false → ∀ i, ¬ Sleeping s' i := by
+  intro hcl hcp j hsl
+  rw [hclosed] at hcl; rw [hcpc] at hcp
+  exact h.noSleepAfterClose hcl hcp j (hsub j hsl)
 
 theorem holder_le_one (p : SPc) (b : Bool) : holder p b ≤ 1 := by unfold holder; split <;> omega
 theorem pusher_le_one (p : SPc) : pusher p ≤ 1 := by unfold pusher; split <;> omega
@@ -36,7 +48,7 @@ theorem inv_step (l : Label) (s s' : St) (h : Inv s) (ha : s.always = true) (hs 
       obtain ⟨hi, hpc⟩ := hc
       simp only [Option.some.injEq] at hs; subst hs
       have hb := h.notInset i hi (Or.inl hpc)
-      refine inv_sender_local s _ i h hi rfl rfl (fun j _ hji => by simp [upd_other _ _ hji]) rfl hoc (Nat.le_refl _)
+      refine inv_sender_local s _ i h hi rfl rfl (fun j _ hji => by simp [upd_other _ _ hji]) rfl rfl rfl hoc (Nat.le_refl _)
         (fun _ => hb) ⟨?_, ?_⟩ ⟨fun x => x, ?_⟩
       · rintro ⟨_, hp, _⟩; simp at hp
       · left; simp [hpc, hb, holder]
@@ -48,7 +60,7 @@ theorem inv_step (l : Label) (s s' : St) (h : Inv s) (ha : s.always = true) (hs 
     · rename_i hc
       obtain ⟨hi, hpc⟩ := hc
       simp only [Option.some.injEq] at hs; subst hs
-      refine inv_sender_local s _ i h hi rfl rfl (fun j _ hji => by simp [upd_other _ _ hji]) rfl hoc (Nat.le_refl _)
+      refine inv_sender_local s _ i h hi rfl rfl (fun j _ hji => by simp [upd_other _ _ hji]) rfl rfl rfl hoc (Nat.le_refl _)
         (fun hp => by simp at hp) ⟨?_, ?_⟩ ⟨fun x => x, ?_⟩
       · rintro ⟨_, hp, _⟩; simp at hp
       · left; simp [hpc, holder]
@@ -60,7 +72,7 @@ theorem inv_step (l : Label) (s s' : St) (h : Inv s) (ha : s.always = true) (hs 
     · rename_i hc
       obtain ⟨hi, hpc⟩ := hc
       simp only [Option.some.injEq] at hs; subst hs
-      refine inv_sender_local s _ i h hi rfl rfl (fun j _ hji => by simp [upd_other _ _ hji]) rfl hoc (Nat.le_refl _)
+      refine inv_sender_local s _ i h hi rfl rfl (fun j _ hji => by simp [upd_other _ _ hji]) rfl rfl rfl hoc (Nat.le_refl _)
         (fun _ => by simp) ⟨?_, ?_⟩ ⟨fun x => x, ?_⟩
       · rintro ⟨_, hp, _⟩; simp at hp
       · left; simp [hpc, holder]; split <;> omega
@@ -70,12 +82,12 @@ theorem inv_step (l : Label) (s s' : St) (h : Inv s) (ha : s.always = true) (hs 
     simp only [step] at hs
     split at hs
     · rename_i hc
-      obtain ⟨hi, hpc⟩ := hc
+      obtain ⟨hi, hpc, _⟩ := hc
       have hb := h.notInset i hi (Or.inr (Or.inl hpc))
       split at hs
       · rename_i hroom
         simp only [Option.some.injEq] at hs; subst hs
-        refine inv_sender_local s _ i h hi rfl rfl (fun j _ hji => by simp [upd_other _ _ hji]) rfl
+        refine inv_sender_local s _ i h hi rfl rfl (fun j _ hji => by simp [upd_other _ _ hji]) rfl rfl rfl
           (by show s.occ + 1 ≤ s.cap; omega) (by show s.msgs + 1 + s.occ ≤ s.msgs + (s.occ + 1); omega)
           (fun _ => by simp [hb]) ⟨?_, ?_⟩ ⟨fun x => x, ?_⟩
         · rintro ⟨_, hp, _⟩; simp at hp
@@ -83,10 +95,10 @@ theorem inv_step (l : Label) (s s' : St) (h : Inv s) (ha : s.always = true) (hs 
         · intro _; simp [hpc, pusher]
       · rename_i hfull
         simp only [Option.some.injEq] at hs; subst hs
-        refine inv_sender_local s _ i h hi rfl rfl (fun j _ hji => by simp [upd_other _ _ hji]) rfl hoc (Nat.le_refl _)
+        refine inv_sender_local s _ i h hi rfl rfl (fun j _ hji => by simp [upd_other _ _ hji]) rfl rfl rfl hoc (Nat.le_refl _)
           (fun _ => by simp [hb]) ⟨?_, ?_⟩ ⟨fun x => x, ?_⟩
         · rintro ⟨_, hp, _⟩; simp at hp
-        · right; show s.occ = s.cap; omega
+        · right; left; show s.occ = s.cap; omega
         · intro _; simp [hpc, pusher]
     · simp at hs
   | sInsert i =>
@@ -96,7 +108,7 @@ theorem inv_step (l : Label) (s s' : St) (h : Inv s) (ha : s.always = true) (hs 
       obtain ⟨hi, hpc⟩ := hc
       have hb := h.notInset i hi (Or.inr (Or.inr (Or.inl hpc)))
       simp only [Option.some.injEq] at hs; subst hs
-      refine inv_sender_local s _ i h hi rfl rfl (fun j _ hji => by simp [upd_other _ _ hji]) rfl hoc (Nat.le_refl _)
+      refine inv_sender_local s _ i h hi rfl rfl (fun j _ hji => by simp [upd_other _ _ hji]) rfl rfl rfl hoc (Nat.le_refl _)
         (fun hp => by simp at hp) ⟨?_, ?_⟩ ⟨fun x => x, ?_⟩
       · rintro ⟨_, hp, _⟩; simp at hp
       · left; simp [hpc, hb, holder]
@@ -106,11 +118,11 @@ theorem inv_step (l : Label) (s s' : St) (h : Inv s) (ha : s.always = true) (hs 
     simp only [step] at hs
     split at hs
     · rename_i hc
-      obtain ⟨hi, hpc⟩ := hc
+      obtain ⟨hi, hpc, _⟩ := hc
       split at hs
       · rename_i hroom
         simp only [Option.some.injEq] at hs; subst hs
-        refine inv_sender_local s _ i h hi rfl rfl (fun j _ hji => by simp [upd_other _ _ hji]) rfl
+        refine inv_sender_local s _ i h hi rfl rfl (fun j _ hji => by simp [upd_other _ _ hji]) rfl rfl rfl
           (by show s.occ + 1 ≤ s.cap; omega) (by show s.msgs + 1 + s.occ ≤ s.msgs + (s.occ + 1); omega)
           (fun hp => by simp at hp) ⟨?_, ?_⟩ ⟨fun x => x, ?_⟩
         · rintro ⟨_, hp, _⟩; simp at hp
@@ -118,10 +130,10 @@ theorem inv_step (l : Label) (s s' : St) (h : Inv s) (ha : s.always = true) (hs 
         · intro _; simp [hpc, pusher]
       · rename_i hfull
         simp only [Option.some.injEq] at hs; subst hs
-        refine inv_sender_local s _ i h hi rfl rfl (fun j _ hji => by simp [upd_other _ _ hji]) rfl hoc (Nat.le_refl _)
+        refine inv_sender_local s _ i h hi rfl rfl (fun j _ hji => by simp [upd_other _ _ hji]) rfl rfl rfl hoc (Nat.le_refl _)
           (fun hp => by simp at hp) ⟨?_, ?_⟩ ⟨fun x => x, ?_⟩
-        · intro _; show s.occ = s.cap; omega
-        · right; show s.occ = s.cap; omega
+        · intro _; exact ⟨Or.inr (by assumption), by show s.occ = s.cap; omega⟩
+        · right; left; show s.occ = s.cap; omega
         · intro _; simp [hpc, pusher]
     · simp at hs
   | sCancel i k =>
@@ -132,7 +144,7 @@ theorem inv_step (l : Label) (s s' : St) (h : Inv s) (ha : s.always = true) (hs 
       split at hs
       · rename_i hin
         simp only [Option.some.injEq] at hs; subst hs
-        refine inv_sender_local s _ i h hi rfl rfl (fun j _ hji => by simp [upd_other _ _ hji]) rfl hoc (Nat.le_refl _)
+        refine inv_sender_local s _ i h hi rfl rfl (fun j _ hji => by simp [upd_other _ _ hji]) rfl rfl rfl hoc (Nat.le_refl _)
           (fun _ => by simp) ⟨?_, ?_⟩ ⟨fun x => x, ?_⟩
         · rintro ⟨_, hp, _⟩; simp at hp
         · left; simp [hpc, hin, holder]
@@ -147,7 +159,8 @@ theorem inv_step (l : Label) (s s' : St) (h : Inv s) (ha : s.always = true) (hs 
             (fun j _ hji => by simp [upd_other _ _ hji])
           have hP := pushers_upd1 s { s with spc := upd s.spc i .notifyRecv } i hi rfl
             (fun j _ hji => by simp [upd_other _ _ hji])
-          refine ⟨hoc, hml, ?_, ?_, ?_⟩
+          refine ⟨hoc, hml, ?_, ?_, ?_, h.cpcClosed, noSleep_mono s _ h rfl rfl (fun j hsl => by
+            unfold Sleeping at hsl ⊢; grind [upd])⟩
           · intro j hj hp
             by_cases hji : j = i
             · subst hji; exact hnin'
@@ -170,10 +183,11 @@ theorem inv_step (l : Label) (s s' : St) (h : Inv s) (ha : s.always = true) (hs 
             have hP := pushers_upd1 s { s with inset := upd s.inset k false, spc := upd s.spc i .notifyRecv } i hi rfl
               (fun j _ hji => by simp [upd_other _ _ hji])
             -- the notifier that is popped belongs to a sender that will look again
-            have hkpc : s.spc k = .rm ∨ s.spc k = .try2 ∨ s.spc k = .cancel ∨ s.spc k = .pending := by
+            have hkpc : s.spc k = .rm ∨ s.spc k = .try2 ∨ s.spc k = .cancel ∨ s.spc k = .pending ∨ s.spc k = .cancelErr := by
               have := h.notInset k hk
               cases hp : s.spc k <;> simp_all
-            refine ⟨hoc, hml, ?_, ?_, ?_⟩
+            refine ⟨hoc, hml, ?_, ?_, ?_, h.cpcClosed, noSleep_mono s _ h rfl rfl (fun j hsl => by
+            unfold Sleeping at hsl ⊢; grind [upd])⟩
             · intro j hj hp
               by_cases hji : j = i
               · subst hji; simp only [upd_other _ _ hik]; exact hnin'
@@ -192,9 +206,9 @@ theorem inv_step (l : Label) (s s' : St) (h : Inv s) (ha : s.always = true) (hs 
               have e3 : holder (upd s.spc i SPc.notifyRecv i) (upd s.inset k false i) = 0 := by simp [holder]
               have e4 : holder (upd s.spc i SPc.notifyRecv k) (upd s.inset k false k) = 1 := by
                 simp only [upd_other _ _ (Ne.symm hik), upd_same]
-                rcases hkpc with e | e | e | e <;> simp [e, holder]
+                rcases hkpc with e | e | e | e | e <;> simp [e, holder]
               simp only [e1, e2, e3, e4] at hH
-              show s.cap ≤ s.occ + rtoken s + holders _
+              show s.cap ≤ s.occ + rtoken s + ctoken s + holders _
               omega
             · rintro ⟨hp, hreg⟩
               have := h.receiver ⟨hp, hreg⟩
@@ -211,7 +225,7 @@ theorem inv_step (l : Label) (s s' : St) (h : Inv s) (ha : s.always = true) (hs 
       split at hs
       · rename_i hin
         simp only [Option.some.injEq] at hs; subst hs
-        refine inv_sender_local s _ i h hi rfl rfl (fun j _ hji => by simp [upd_other _ _ hji]) rfl hoc (Nat.le_refl _)
+        refine inv_sender_local s _ i h hi rfl rfl (fun j _ hji => by simp [upd_other _ _ hji]) rfl rfl rfl hoc (Nat.le_refl _)
           (fun _ => by simp) ⟨?_, ?_⟩ ⟨fun x => x, ?_⟩
         · rintro ⟨_, hp, _⟩; simp at hp
         · left; simp [hpc, hin, holder]
@@ -226,7 +240,8 @@ theorem inv_step (l : Label) (s s' : St) (h : Inv s) (ha : s.always = true) (hs 
             (fun j _ hji => by simp [upd_other _ _ hji])
           have hP := pushers_upd1 s { s with spc := upd s.spc i .idle } i hi rfl
             (fun j _ hji => by simp [upd_other _ _ hji])
-          refine ⟨hoc, hml, ?_, ?_, ?_⟩
+          refine ⟨hoc, hml, ?_, ?_, ?_, h.cpcClosed, noSleep_mono s _ h rfl rfl (fun j hsl => by
+            unfold Sleeping at hsl ⊢; grind [upd])⟩
           · intro j hj hp
             by_cases hji : j = i
             · subst hji; exact hnin'
@@ -249,10 +264,11 @@ theorem inv_step (l : Label) (s s' : St) (h : Inv s) (ha : s.always = true) (hs 
             have hP := pushers_upd1 s { s with inset := upd s.inset k false, spc := upd s.spc i .idle } i hi rfl
               (fun j _ hji => by simp [upd_other _ _ hji])
             -- the notifier that is popped belongs to a sender that will look again
-            have hkpc : s.spc k = .rm ∨ s.spc k = .try2 ∨ s.spc k = .cancel ∨ s.spc k = .pending := by
+            have hkpc : s.spc k = .rm ∨ s.spc k = .try2 ∨ s.spc k = .cancel ∨ s.spc k = .pending ∨ s.spc k = .cancelErr := by
               have := h.notInset k hk
               cases hp : s.spc k <;> simp_all
-            refine ⟨hoc, hml, ?_, ?_, ?_⟩
+            refine ⟨hoc, hml, ?_, ?_, ?_, h.cpcClosed, noSleep_mono s _ h rfl rfl (fun j hsl => by
+            unfold Sleeping at hsl ⊢; grind [upd])⟩
             · intro j hj hp
               by_cases hji : j = i
               · subst hji; simp only [upd_other _ _ hik]; exact hnin'
@@ -271,9 +287,9 @@ theorem inv_step (l : Label) (s s' : St) (h : Inv s) (ha : s.always = true) (hs 
               have e3 : holder (upd s.spc i SPc.idle i) (upd s.inset k false i) = 0 := by simp [holder]
               have e4 : holder (upd s.spc i SPc.idle k) (upd s.inset k false k) = 1 := by
                 simp only [upd_other _ _ (Ne.symm hik), upd_same]
-                rcases hkpc with e | e | e | e <;> simp [e, holder]
+                rcases hkpc with e | e | e | e | e <;> simp [e, holder]
               simp only [e1, e2, e3, e4] at hH
-              show s.cap ≤ s.occ + rtoken s + holders _
+              show s.cap ≤ s.occ + rtoken s + ctoken s + holders _
               omega
             · rintro ⟨hp, hreg⟩
               have := h.receiver ⟨hp, hreg⟩
@@ -282,6 +298,147 @@ theorem inv_step (l : Label) (s s' : St) (h : Inv s) (ha : s.always = true) (hs 
               omega
           · simp at hs
     · simp at hs
+  | sTry1Closed i =>
+    simp only [step] at hs
+    split at hs
+    · rename_i hc
+      obtain ⟨hi, hpc, hcl⟩ := hc
+      have hb := h.notInset i hi (Or.inr (Or.inl hpc))
+      simp only [Option.some.injEq] at hs; subst hs
+      refine inv_sender_local s _ i h hi rfl rfl (fun j _ hji => by simp [upd_other _ _ hji]) rfl rfl rfl hoc (Nat.le_refl _)
+        (fun _ => hb) ⟨?_, ?_⟩ ⟨fun x => x, ?_⟩
+      · rintro ⟨_, hp, _⟩; simp at hp
+      · -- the queue is closed: the closing thread is about to wake everybody, or has done so and nobody sleeps
+        right; right
+        cases hcp : s.cpc with
+        | true => exact Or.inl rfl
+        | false => exact Or.inr ⟨hcl, rfl⟩
+      · intro _; simp [hpc, pusher]
+    · simp at hs
+  | sTry2Closed i =>
+    simp only [step] at hs
+    split at hs
+    · rename_i hc
+      obtain ⟨hi, hpc, hcl⟩ := hc
+      simp only [Option.some.injEq] at hs; subst hs
+      refine inv_sender_local s _ i h hi rfl rfl (fun j _ hji => by simp [upd_other _ _ hji]) rfl rfl rfl hoc (Nat.le_refl _)
+        (fun hp => by simp at hp) ⟨?_, ?_⟩ ⟨fun x => x, ?_⟩
+      · rintro ⟨_, hp, _⟩; simp at hp
+      · left; simp [hpc, holder]
+      · intro _; simp [hpc, pusher]
+    · simp at hs
+  | sCancelErr i k =>
+    simp only [step] at hs
+    split at hs
+    · rename_i hc
+      obtain ⟨hi, hpc⟩ := hc
+      split at hs
+      · rename_i hin
+        simp only [Option.some.injEq] at hs; subst hs
+        refine inv_sender_local s _ i h hi rfl rfl (fun j _ hji => by simp [upd_other _ _ hji]) rfl rfl rfl hoc (Nat.le_refl _)
+          (fun _ => by simp) ⟨?_, ?_⟩ ⟨fun x => x, ?_⟩
+        · rintro ⟨_, hp, _⟩; simp at hp
+        · left; simp [hpc, hin, holder]
+        · intro _; simp [hpc, pusher]
+      · rename_i hnin
+        have hnin' : s.inset i = false := by cases hb : s.inset i <;> simp_all
+        split at hs
+        · -- nobody is in the wait set: nobody sleeps
+          rename_i hempty
+          simp only [Option.some.injEq] at hs; subst hs
+          have hH := holders_upd1 s { s with spc := upd s.spc i .idle } i hi rfl
+            (fun j _ hji => by simp [upd_other _ _ hji])
+          have hP := pushers_upd1 s { s with spc := upd s.spc i .idle } i hi rfl
+            (fun j _ hji => by simp [upd_other _ _ hji])
+          refine ⟨hoc, hml, ?_, ?_, ?_, h.cpcClosed, noSleep_mono s _ h rfl rfl (fun j hsl => by
+            unfold Sleeping at hsl ⊢; grind [upd])⟩
+          · intro j hj hp
+            by_cases hji : j = i
+            · subst hji; exact hnin'
+            · simp only [upd_other _ _ hji] at hp; exact h.notInset j hj hp
+          · rintro ⟨j, hj, _, hb⟩
+            have := hempty j hj
+            simp_all
+          · rintro ⟨hp, hreg⟩
+            have := h.receiver ⟨hp, hreg⟩
+            simp [hpc, pusher] at hP
+            show s.msgs ≤ pushers _
+            omega
+        · split at hs
+          · rename_i hk
+            obtain ⟨hk, hkin⟩ := hk
+            simp only [Option.some.injEq] at hs; subst hs
+            have hik : i ≠ k := by intro e; subst e; rw [hnin'] at hkin; cases hkin
+            have hH := holders_upd2 s { s with inset := upd s.inset k false, spc := upd s.spc i .idle } i k hi hk hik rfl
+              (fun j _ hji hjk => by simp [upd_other _ _ hji, upd_other _ _ hjk])
+            have hP := pushers_upd1 s { s with inset := upd s.inset k false, spc := upd s.spc i .idle } i hi rfl
+              (fun j _ hji => by simp [upd_other _ _ hji])
+            -- the notifier that is popped belongs to a sender that will look again
+            have hkpc : s.spc k = .rm ∨ s.spc k = .try2 ∨ s.spc k = .cancel ∨ s.spc k = .pending ∨ s.spc k = .cancelErr := by
+              have := h.notInset k hk
+              cases hp : s.spc k <;> simp_all
+            refine ⟨hoc, hml, ?_, ?_, ?_, h.cpcClosed, noSleep_mono s _ h rfl rfl (fun j hsl => by
+            unfold Sleeping at hsl ⊢; grind [upd])⟩
+            · intro j hj hp
+              by_cases hji : j = i
+              · subst hji; simp only [upd_other _ _ hik]; exact hnin'
+              · simp only [upd_other _ _ hji] at hp
+                by_cases hjk : j = k
+                · subst hjk; simp
+                · simp only [upd_other _ _ hjk]; exact h.notInset j hj hp
+            · rintro ⟨j, hj, hp, hb⟩
+              have hjk : j ≠ k := by intro e; subst e; simp at hb
+              have hji : j ≠ i := by intro e; subst e; simp at hp
+              simp only [upd_other _ _ hji] at hp
+              simp only [upd_other _ _ hjk] at hb
+              have := h.senders ⟨j, hj, hp, hb⟩
+              have e1 : holder (s.spc i) (s.inset i) = 1 := by simp [hpc, hnin', holder]
+              have e2 : holder (s.spc k) (s.inset k) = 0 := by simp [hkin, holder]
+              have e3 : holder (upd s.spc i SPc.idle i) (upd s.inset k false i) = 0 := by simp [holder]
+              have e4 : holder (upd s.spc i SPc.idle k) (upd s.inset k false k) = 1 := by
+                simp only [upd_other _ _ (Ne.symm hik), upd_same]
+                rcases hkpc with e | e | e | e | e <;> simp [e, holder]
+              simp only [e1, e2, e3, e4] at hH
+              show s.cap ≤ s.occ + rtoken s + ctoken s + holders _
+              omega
+            · rintro ⟨hp, hreg⟩
+              have := h.receiver ⟨hp, hreg⟩
+              simp [hpc, pusher] at hP
+              show s.msgs ≤ pushers _
+              omega
+          · simp at hs
+    · simp at hs
+  | closeQ =>
+    simp only [step] at hs
+    split at hs
+    · rename_i hc
+      simp only [Option.some.injEq] at hs; subst hs
+      have hH : holders { s with closed := true, cpc := true } = holders s := holders_same s _ rfl (fun _ _ => ⟨rfl, rfl⟩)
+      have hP : pushers { s with closed := true, cpc := true } = pushers s := pushers_same s _ rfl (fun _ _ => rfl)
+      refine ⟨hoc, hml, h.notInset, ?_, ?_, fun _ => rfl, fun _ hcp => by simp at hcp⟩
+      · intro _
+        show s.cap ≤ s.occ + rtoken s + ctoken { s with closed := true, cpc := true } + holders _
+        have : ctoken { s with closed := true, cpc := true } = s.cap := by simp [ctoken]
+        omega
+      · intro hsl
+        have := h.receiver hsl
+        show s.msgs ≤ pushers _
+        omega
+    · simp at hs
+  | closeNotify =>
+    simp only [step] at hs
+    split at hs
+    · rename_i hc
+      simp only [Option.some.injEq] at hs; subst hs
+      have hP : pushers { s with inset := fun _ => false, cpc := false } = pushers s := pushers_same s _ rfl (fun _ _ => rfl)
+      refine ⟨hoc, hml, fun _ _ _ => rfl, ?_, ?_, fun hcp => by simp at hcp, ?_⟩
+      · rintro ⟨j, _, _, hb⟩; simp at hb
+      · intro hsl
+        have := h.receiver hsl
+        show s.msgs ≤ pushers _
+        omega
+      · rintro _ _ j ⟨_, _, hb⟩; simp at hb
+    · simp at hs
   | sNotify i =>
     simp only [step] at hs
     split at hs
@@ -289,7 +446,7 @@ theorem inv_step (l : Label) (s s' : St) (h : Inv s) (ha : s.always = true) (hs 
       obtain ⟨hi, hpc⟩ := hc
       have hb := h.notInset i hi (Or.inr (Or.inr (Or.inr hpc)))
       simp only [Option.some.injEq] at hs; subst hs
-      refine inv_sender_local s _ i h hi rfl rfl (fun j _ hji => by simp [upd_other _ _ hji]) rfl hoc (Nat.le_refl _)
+      refine inv_sender_local s _ i h hi rfl rfl (fun j _ hji => by simp [upd_other _ _ hji]) rfl rfl rfl hoc (Nat.le_refl _)
         (fun _ => hb) ⟨?_, ?_⟩ ⟨fun x => by simp at x, fun x => by simp at x⟩
       · rintro ⟨_, hp, _⟩; simp at hp
       · left; simp [hpc, hb, holder]
@@ -297,9 +454,10 @@ theorem inv_step (l : Label) (s s' : St) (h : Inv s) (ha : s.always = true) (hs 
   | rBegin =>
     simp only [step] at hs
     split at hs
-    · rename_i hc
+    · rename_i hc0
+      have hc := hc0.1
       simp only [Option.some.injEq] at hs; subst hs
-      refine inv_receiver_local s _ h rfl rfl rfl rfl hoc (by simp [rborrow, hc] at hml ⊢; omega) ?_ ?_
+      refine inv_receiver_local s _ h rfl rfl rfl rfl rfl rfl hoc (by simp [rborrow, hc] at hml ⊢; omega) ?_ ?_
       · simp [rtoken, hc]
       · rintro ⟨hp, _⟩; simp at hp
     · simp at hs
@@ -308,7 +466,7 @@ theorem inv_step (l : Label) (s s' : St) (h : Inv s) (ha : s.always = true) (hs 
     split at hs
     · rename_i hc
       simp only [Option.some.injEq] at hs; subst hs
-      refine inv_receiver_local s _ h rfl rfl rfl rfl hoc (by simp [rborrow, hc] at hml ⊢; omega) ?_ ?_
+      refine inv_receiver_local s _ h rfl rfl rfl rfl rfl rfl hoc (by simp [rborrow, hc] at hml ⊢; omega) ?_ ?_
       · simp [rtoken, hc]
       · rintro ⟨hp, _⟩; simp at hp
     · simp at hs
@@ -317,10 +475,10 @@ theorem inv_step (l : Label) (s s' : St) (h : Inv s) (ha : s.always = true) (hs 
     split at hs
     · rename_i hc
       split at hs <;> (simp only [Option.some.injEq] at hs; subst hs)
-      · refine inv_receiver_local s _ h rfl rfl rfl rfl hoc (by simp [rborrow, hc] at hml ⊢; omega) ?_ ?_
+      · refine inv_receiver_local s _ h rfl rfl rfl rfl rfl rfl hoc (by simp [rborrow, hc] at hml ⊢; omega) ?_ ?_
         · simp [rtoken, hc]
         · rintro ⟨hp, _⟩; simp at hp
-      · refine inv_receiver_local s _ h rfl rfl rfl rfl hoc (by simp [rborrow, hc] at hml ⊢; omega) ?_ ?_
+      · refine inv_receiver_local s _ h rfl rfl rfl rfl rfl rfl hoc (by simp [rborrow, hc] at hml ⊢; omega) ?_ ?_
         · simp [rtoken, hc]
         · rintro ⟨hp, _⟩; simp at hp
     · simp at hs
@@ -329,7 +487,7 @@ theorem inv_step (l : Label) (s s' : St) (h : Inv s) (ha : s.always = true) (hs 
     split at hs
     · rename_i hc
       simp only [Option.some.injEq] at hs; subst hs
-      refine inv_receiver_local s _ h rfl rfl rfl rfl hoc (by simp [rborrow, hc] at hml ⊢; omega) ?_ ?_
+      refine inv_receiver_local s _ h rfl rfl rfl rfl rfl rfl hoc (by simp [rborrow, hc] at hml ⊢; omega) ?_ ?_
       · simp [rtoken, hc]
       · rintro ⟨hp, _⟩; simp at hp
     · simp at hs
@@ -338,11 +496,11 @@ theorem inv_step (l : Label) (s s' : St) (h : Inv s) (ha : s.always = true) (hs 
     split at hs
     · rename_i hc
       split at hs <;> (simp only [Option.some.injEq] at hs; subst hs)
-      · refine inv_receiver_local s _ h rfl rfl rfl rfl hoc (by simp [rborrow, hc] at hml ⊢; omega) ?_ ?_
+      · refine inv_receiver_local s _ h rfl rfl rfl rfl rfl rfl hoc (by simp [rborrow, hc] at hml ⊢; omega) ?_ ?_
         · simp [rtoken, hc]
         · rintro ⟨hp, _⟩; simp at hp
       · rename_i hz
-        refine inv_receiver_local s _ h rfl rfl rfl rfl hoc (by simp [rborrow, hc] at hml ⊢; omega) ?_ ?_
+        refine inv_receiver_local s _ h rfl rfl rfl rfl rfl rfl hoc (by simp [rborrow, hc] at hml ⊢; omega) ?_ ?_
         · simp [rtoken, hc]
         · intro _; right; show s.msgs = 0; omega
     · simp at hs
@@ -351,7 +509,7 @@ theorem inv_step (l : Label) (s s' : St) (h : Inv s) (ha : s.always = true) (hs 
     split at hs
     · rename_i hc
       simp only [Option.some.injEq] at hs; subst hs
-      refine inv_receiver_local s _ h rfl rfl rfl rfl hoc (by simp [rborrow, hc] at hml ⊢; omega) ?_ ?_
+      refine inv_receiver_local s _ h rfl rfl rfl rfl rfl rfl hoc (by simp [rborrow, hc] at hml ⊢; omega) ?_ ?_
       · simp [rtoken, hc]
       · rintro ⟨hp, _⟩; simp at hp
     · simp at hs
@@ -361,7 +519,7 @@ theorem inv_step (l : Label) (s s' : St) (h : Inv s) (ha : s.always = true) (hs 
     · rename_i hc
       simp only [Option.some.injEq] at hs; subst hs
       have hb : s.msgs + 1 ≤ s.occ := by simp [rborrow, hc] at hml; exact hml
-      refine inv_receiver_local s _ h rfl rfl rfl rfl (by show s.occ - 1 ≤ s.cap; omega)
+      refine inv_receiver_local s _ h rfl rfl rfl rfl rfl rfl (by show s.occ - 1 ≤ s.cap; omega)
         (by simp [rborrow]; omega) ?_ ?_
       · simp [rtoken, hc]; omega
       · rintro ⟨hp, _⟩; simp at hp
@@ -376,7 +534,8 @@ theorem inv_step (l : Label) (s s' : St) (h : Inv s) (ha : s.always = true) (hs 
         simp only [Option.some.injEq] at hs; subst hs
         have hH : holders { s with rpc := .handler } = holders s := holders_same s _ rfl (fun _ _ => ⟨rfl, rfl⟩)
         have hP : pushers { s with rpc := .handler } = pushers s := pushers_same s _ rfl (fun _ _ => rfl)
-        refine ⟨hoc, by simp [rborrow, hc] at hml ⊢; omega, h.notInset, ?_, ?_⟩
+        refine ⟨hoc, by simp [rborrow, hc] at hml ⊢; omega, h.notInset, ?_, ?_, h.cpcClosed, noSleep_mono s _ h rfl rfl (fun j hsl => by
+          unfold Sleeping at hsl ⊢; grind [upd])⟩
         · rintro ⟨j, hj, _, hb⟩
           have := hempty j hj
           simp_all
@@ -387,10 +546,11 @@ theorem inv_step (l : Label) (s s' : St) (h : Inv s) (ha : s.always = true) (hs 
           simp only [Option.some.injEq] at hs; subst hs
           have hH := holders_upd1 s { s with inset := upd s.inset k false, rpc := .handler } k hk rfl
             (fun j _ hjk => by simp [upd_other _ _ hjk])
-          have hkpc : s.spc k = .rm ∨ s.spc k = .try2 ∨ s.spc k = .cancel ∨ s.spc k = .pending := by
+          have hkpc : s.spc k = .rm ∨ s.spc k = .try2 ∨ s.spc k = .cancel ∨ s.spc k = .pending ∨ s.spc k = .cancelErr := by
             have := h.notInset k hk
             cases hp : s.spc k <;> simp_all
-          refine ⟨hoc, by simp [rborrow, hc] at hml ⊢; omega, ?_, ?_, ?_⟩
+          refine ⟨hoc, by simp [rborrow, hc] at hml ⊢; omega, ?_, ?_, ?_, h.cpcClosed, noSleep_mono s _ h rfl rfl (fun j hsl => by
+            unfold Sleeping at hsl ⊢; grind [upd])⟩
           · intro j hj hp
             by_cases hjk : j = k
             · subst hjk; simp
@@ -402,10 +562,10 @@ theorem inv_step (l : Label) (s s' : St) (h : Inv s) (ha : s.always = true) (hs 
             have e2 : holder (s.spc k) (s.inset k) = 0 := by simp [hkin, holder]
             have e4 : holder (s.spc k) (upd s.inset k false k) = 1 := by
               simp only [upd_same]
-              rcases hkpc with e | e | e | e <;> simp [e, holder]
+              rcases hkpc with e | e | e | e | e <;> simp [e, holder]
             simp only [e2, e4] at hH
             have e5 : rtoken s = 1 := by simp [rtoken, hc]
-            show s.cap ≤ s.occ + rtoken { s with inset := upd s.inset k false, rpc := .handler } + holders _
+            show s.cap ≤ s.occ + rtoken { s with inset := upd s.inset k false, rpc := .handler } + ctoken s + holders _
             have e6 : rtoken { s with inset := upd s.inset k false, rpc := RPc.handler } = 0 := by simp [rtoken]
             omega
           · rintro ⟨hp, _⟩; simp at hp
